@@ -392,7 +392,7 @@ def parseGroup (valid : Str → Bool) (parts : List Str) (offset resId : Nat) : 
 
 /-- `Stochastic._validate`: every transition list has one entry per descriptor of the object -/
 def validateStoch (o : PStoch) : PR PStoch :=
-  if o.allDescs.any (fun p => match p.d.trans with | some l => l.length != o.allDescs.length | none => false)
+  if (o.allDescs ++ [o.left, o.right]).any (fun p => match p.d.trans with | some l => l.length != o.allDescs.length | none => false)
   then .error .transitionLength else .ok o
 
 /-- `Stochastic.__init__` up to (not including) `_validate` -/
